@@ -34,7 +34,7 @@ def build(repo, findings):
     f.resub(r'Err\(error::ErrorKind::NoMatch\((\w+)\)\.into\(\)\)', r'Err(no_match_error(\1))', 'R14', 'ErrorKind::..into() -> stub', count=None)
     recognised = len(re.findall(r'String::from\(field\)', f.text))
     f.resub(r'\bString::from\(field\)', 'wordfield_to_string(field)', 'R14', 'From<WordField> for String -> stub (the texts of the pieces joined)', count=None)
-    m = re.search(r'if self\.shell\.options\(\)\.expand_non_matching_patterns_to_null \{\s*Ok\(vec!\[\]\)\s*\} else \{\n(.*?)\n\s*\}\n\s*\} else \{\s*Ok\(paths\)', f.text, re.S)
+    m = re.search(r'if [^\n{]*expand_non_matching_patterns_to_null \{\s*Ok\(vec!\[\]\)\s*\} else \{\n(.*?)\n\s*\}\n\s*\} else \{\s*Ok\(paths\)', f.text, re.S)
     if not m:
         raise ExtractError('unsupported: %s: the no-match branch is not `if ..nullglob.. { Ok(vec![]) } else { X }` followed by `else { Ok(paths) }`' % fn)
     open_value = not re.fullmatch(r'\s*Ok\(vec!\[wordfield_to_string\(field\)\]\)\s*', m.group(1))
